@@ -1,9 +1,108 @@
-# Per property: which harness generators run, what the evidence says about the check.
+# Per property: which harness generators run and what the evidence says about the check.
+# "race": also run the harness built with the Go race detector and classify its reports.
+
+COMMON_ASSUME = [
+    "Go semantics and runtime (sync.RWMutex, scheduler, GC, bufio, io.ReadFull, encoding/gob) and the OS (pwrite, ftruncate, flock, unlink, rename, mmap coherence, atomic directory operations) are modelled, not verified",
+    "the 32-bit offset side condition `room` (no segment within one maximal record of 4 GiB) is a hypothesis of the write theorems, see DESIGN.md",
+]
+
 PROPS = {
+    "C01": {
+        "generators": [{"name": "C01"}],
+        "explanation": "Theorems: every API call on every invariant state answers from / updates the abstract contents as a plain map (flat index); the bucket chains implement lookup/insert/delete/split for arbitrary hashes and split policy; refinement chain -> flat and the run theorem over all op sequences (DBSim.v, Run.v). Tie: every call of seeded histories on engineered colliding key sets compared with the extracted model (both index instantiations, physical chain walk included) and a reference map; the Coq invariant is evaluated on every reached state.",
+        "trusted_base": ["hash function and split policy are arbitrary parameters of the theorems; the driver instantiates them with MurmurHash3 / the float64 load-factor test written in OCaml"],
+        "assumptions": COMMON_ASSUME + ["physical overflow-bucket offsets and the free list are abstracted (a chain owns its buckets); MaxKeys guard not modelled"],
+    },
+    "C02": {
+        "generators": [{"name": "C02"}],
+        "explanation": "Theorems close_ok, close_reopen_ok, reopen_close_same_log over every invariant state. Tie: histories cut into sessions; full state dumps before Close, after Close, after Open compared with the model; ShapeCheck.close_order / close_syncs over the regenerated Close skeleton.",
+        "assumptions": COMMON_ASSUME + ["gob encoding of metadata is abstracted to its content"],
+    },
+    "C03": {
+        "generators": [{"name": "C03"}],
+        "explanation": "Theorems C03_put/delete/sync/close and crash_open_recover: for every crash image (every prefix of the operation's file-system calls, every cut of a record write) the next Open succeeds with the invariant and the contents before or after the operation. Tie: the model's call trace is compared call by call (names, offsets, payload of segment writes) with the implementation's; sampled crash images are materialised on both sides and reopened.",
+        "assumptions": COMMON_ASSUME + ["process-crash model of the property; index and metadata file writes are single events whose content the theorems do not depend on"],
+    },
+    "C04": {
+        "generators": [{"name": "C04"}],
+        "explanation": "Theorem C04_chain: for every finite sequence of (history, crash point) epochs including crashes inside the recovering Open; recover_idempotent. Tie: chains of 1-5 epochs on both sides with state dumps (append positions vs file lengths) after every recovery.",
+        "assumptions": COMMON_ASSUME,
+    },
+    "C05": {
+        "generators": [{"name": "C05"}],
+        "explanation": "Theorems compact_pick_ok, compact_step_ok (each micro-step preserves the contents and the invariants Inv, CInv, MetaOK), writers preserve CInv, db_compact_ok, no resurrection after recovery. Tie: Compact stepped yield point by yield point with writer operations in between, crash inside, dumps; ShapeCheck.compact_order.",
+        "assumptions": COMMON_ASSUME,
+    },
+    "C06": {
+        "generators": [{"name": "C06"}],
+        "explanation": "Power-loss images enumerated per instant from the recorded calls (per file: synced content + prefix of pending operations, sector cuts) and reopened; contract = value at last completed Sync or a later write, also across an earlier process crash. Coq: ShapeCheck.seal_syncs / compact_order (sealing flushes, the source is removed after the flush) and PowerLoss.v.",
+        "assumptions": COMMON_ASSUME + ["power-loss model exactly as the property words it"],
+    },
+    "C07": {
+        "generators": [{"name": "C07"}],
+        "explanation": "Conc.v: histories of atomic actions are linearizable by construction given the per-action theorems (C01, C05); the atomicity premise is ShapeCheck.all_guarded / single_region over the regenerated lock structure. Search: porcupine on recorded concurrent histories.",
+        "assumptions": COMMON_ASSUME + ["sync.RWMutex provides mutual exclusion (trusted)"],
+    },
     "C08": {
         "generators": [{"name": "C08"}],
-        "explanation": "Theorems over all byte strings about the validating reader (decode_next / parse_tail = segmentIterator.next driven by the recovery iterator); tie: byte-exact differential run of the recovering Open against the extracted reader and an independent decoder of the documented format on damaged tails.",
+        "explanation": "Theorems over all byte strings about the validating reader (decode_next / parse_tail = segmentIterator.next driven by the recovery iterator); open_recover_ok says what recovery does with its result. Tie: byte-exact differential run of the recovering Open against the extracted reader and an independent decoder of the documented format on damaged tails.",
         "trusted_base": ["bufio/io.ReadFull semantics; hash/crc32 (cross-checked against Crc.v on every run)"],
         "assumptions": ["process-crash model of the property; the tail is whatever bytes follow the last complete record"],
+    },
+    "C09": {
+        "generators": [{"name": "C09"}],
+        "explanation": "Power-loss images at every call from the return of Close to the completion of the next Open, reopened; Coq: ShapeCheck.close_syncs (every file Close writes is flushed before the lock file is removed), close_ok (lock removal is the last event).",
+        "assumptions": COMMON_ASSUME + ["power-loss model exactly as the property words it"],
+    },
+    "C10": {
+        "generators": [{"name": "C10"}],
+        "race": True,
+        "explanation": "Coq: lock discipline (all_guarded), lock order (lock_order_ok: ItMu < MaintMu < Mu, TryLock never blocks), Close cancels and joins the worker before locking (close_order), after-Close behaviour of the model. Runtime part (not provable in a functional model): stress of all public methods incl. Close racing with everything under SetPanicOnFault, watchdog, goroutine dump, and the Go race detector.",
+        "assumptions": COMMON_ASSUME + ["partial: data races, memory faults and goroutine leaks are runtime behaviours; they are exercised, not proved"],
+    },
+    "C11": {
+        "generators": [{"name": "C11"}],
+        "explanation": "Index.v: px_iter_all (a quiescent scan visits every slot once), px_split_slot_forward / px_put_other_chains / px_del_other_chains (a split only moves slots to the new last chain; put/delete touch one chain). Tie: Next call by call compared with the chain-index model, with writers between calls.",
+        "assumptions": COMMON_ASSUME,
+    },
+    "C12": {
+        "generators": [{"name": "C12"}],
+        "explanation": "DBProofsBackup.v: the copied segments are the log at the snapshot instant whatever writers do meanwhile; recovery of the backup yields the snapshot contents. Tie: Backup stepped at its yield points with writers in between; ShapeCheck.backup_shape.",
+        "assumptions": COMMON_ASSUME,
+    },
+    "C13": {
+        "generators": [{"name": "C13"}],
+        "explanation": "Lock.v: transition system of the lock-file protocol at system-call granularity, any number of processes, all schedules, death at any point; mutual exclusion, holder owns path and flock, unclean shutdown always detected, loser changes nothing; refutation witnesses for the pinned protocol and for the protocol without the mark byte. Tie: schedules executed with real system calls (yield hooks) and on the extracted model; ShapeCheck.lockfile_shape.",
+        "assumptions": ["flock semantics (per open file description, released on close / process death); fstat+stat verification is one atomic step; deaths in the middle of an acquisition holding a descriptor are covered by the theorems only"],
+    },
+    "C14": {
+        "generators": [{"name": "C14"}],
+        "explanation": "ShapeCheck.results_copied over the regenerated shapes (Get/GetAppend/fetchItems copy inside the critical section); runtime part: returned slices re-read after overwrites, compaction removing the source segment, Close, under SetPanicOnFault, on all three file systems.",
+        "assumptions": COMMON_ASSUME + ["partial: aliasing and unmapping are properties of the Go heap and the MMU; exercised, not proved"],
+    },
+    "C15": {
+        "generators": [{"name": "C15"}],
+        "explanation": "DBProofsCompact.v: files_exact preserved, compact_removes_files, dir_exact; usability after compaction follows from put_ok/delete_ok/sync_ok/close_ok on the invariant state. Tie: churn with Compact and restarts, directory listing and handle counts compared with the model; ConstsCheck.remove_segment_ext.",
+        "assumptions": COMMON_ASSUME,
+    },
+    "C16": {
+        "generators": [{"name": "C16"}],
+        "explanation": "put_ok for all admissible sizes, put_rejected (state untouched), get/has/delete for every key including over-long ones, limits fit the length fields (regenerated constants). Tie: boundary key and value lengths on both sides incl. restart and recovery.",
+        "assumptions": COMMON_ASSUME + ["values near 512 MiB are not run through the model (a 512 MiB byte list); the theorem covers them"],
+    },
+    "C17": {
+        "generators": [{"name": "C17"}],
+        "explanation": "FSImpl.v: memFile, osFile, osMMapFile refine one abstract file for every admissible call sequence; the mapping is never overrun. Tie: the same programs on the harness FS, the model, fs.Mem, fs.OS, fs.OSMMap with results and segment bytes compared.",
+        "assumptions": ["kernel: pwrite/ftruncate/read semantics and coherence of a shared read-only mapping with later pwrites (trusted)"],
+    },
+    "C18": {
+        "generators": [{"name": "C18"}],
+        "explanation": "Round-trip theorems for records, header, buckets, segment names; regenerated constants and layouts compared by the kernel; golden directories written by the pinned version opened by the current build; segments decoded by an independent reader and by the Coq reader.",
+        "assumptions": ["gob metadata decoded by encoding/gob (trusted)"],
+    },
+    "C19": {
+        "generators": [{"name": "C19"}],
+        "explanation": "parse_alloc_le: for every byte string the reader allocates at most the bytes present. Tie: TotalAlloc of the recovering Open for corner and random headers.",
+        "assumptions": ["allocation of the index rebuild and of bufio is outside the reader model; covered by the measured bound"],
     },
 }
